@@ -9,6 +9,7 @@ a real loop could produce are produced.
 """
 
 import asyncio
+import heapq
 import selectors
 import sys
 
@@ -41,6 +42,15 @@ class _Selector:
 
     def __getattr__(self, name):
         return getattr(self._real, name)
+
+
+class VTimerHandle(asyncio.TimerHandle):
+    """TimerHandle that remembers when it was created and whether it has run."""
+
+    def _run(self):
+        self.vf_fired = True
+        self.vf_fired_at = self._loop._vt
+        return super()._run()
 
 
 def _is_edzed_code(code):
@@ -83,7 +93,18 @@ class VirtualLoop(asyncio.SelectorEventLoop):
             self.jumps += 1
 
     def call_at(self, when, callback, *args, context=None):
-        handle = super().call_at(when, callback, *args, context=context)
+        # same as BaseEventLoop.call_at, with a recording handle class
+        if when is None:
+            raise TypeError("when cannot be None")
+        self._check_closed()
+        handle = VTimerHandle(when, callback, args, self, context)
+        handle.vf_fired = False
+        handle.vf_fired_at = None
+        handle.vf_created = self._vt
+        if handle._source_traceback:
+            del handle._source_traceback[-1]
+        heapq.heappush(self._scheduled, handle)
+        handle._scheduled = True
         if self.track:
             self.handles.append(handle)
         return handle
